@@ -56,7 +56,8 @@ def canon(t, value=None, arms=None):
         if value == 0:
             op = _NEG[op]
         return _rel(op, a, b[1])
-    if (t[0] == "BE" and value is not None) or t[0] in ("call", "sl", "fld", "index") and (isinstance(value, int) and value not in (0, 1) or value == "otherwise" or (arms and any(a not in (0, 1) for a in arms))):
+    if (t[0] == "BE" and value is not None) or (t[0] == "binop" and len(t) == 4 and t[1] not in _NEG and value is not None) \
+            or t[0] in ("call", "sl", "fld", "index") and (isinstance(value, int) and value not in (0, 1) or value == "otherwise" or (arms and any(a not in (0, 1) for a in arms))):
         # `match x { k => .., _ => .. }` directly on the integer expression
         from termutil import pin_of
         pin = pin_of(t, value, arms)
